@@ -1,6 +1,7 @@
 /- driver glue for the handle tables of a vnacal_t: the `cal` operations that do not depend on numerics -/
 import Libvna.Model.CalTable
 import Libvna.Model.Scalar
+import Libvna.Model.ParamHash
 import Libvna.Driver.PropDrv
 open Libvna Libvna.CT
 
@@ -133,6 +134,16 @@ def stepCal (st : CalState) (args : List String) : CalState × String :=
              news := st.news.set n (some { nr with holds := holds, nstd := if ok then nr.nstd + 1 else nr.nstd, solved := false }) },
            if ok then "unmodelled" else failInval)
       | _, _ => unm
+    | none => (st, "bad-op")
+  | "hash_dump" :: [n] =>
+    -- the parameter table of the vnacal_new_t: the registrations in order (VNACAL_ZERO first), through Model/ParamHash
+    match n.toNat? with
+    | some n => match (st.news[n]?).join with
+      | some nr =>
+        let t := Libvna.PH.build nr.holds
+        let body := (List.range t.size).foldl (fun acc i => acc ++ (t.chain i).foldl (fun a e => a ++ " " ++ toString e) "" ++ " ;") ""
+        (st, "ok " ++ toString t.size ++ body)
+      | none => (st, "bad-op")
     | none => (st, "bad-op")
   | "solve" :: [n] =>
     -- numerics are not modelled here: the generator only asks for solves that succeed
